@@ -69,6 +69,10 @@ def gen_tree(rnd, maxents=8, sizes=(0, 1, 2, 10, 10, 300), depth_bias=0.5):
             if not t.has(d + "/data.txt"): t.ents.append(("F", d + "/data.txt", b"data-next-to-the-link"))
             for ln in ["link.txt", "résumé.html", "ссылка"]:
                 if rnd.random() < 0.6 and not t.has(d + "/" + ln): t.ents.append(("L", d + "/" + ln, rnd.choice(["data.txt", "./data.txt"])))
+    if rnd.random() < 0.06:
+        # a copy, INSIDE the served directory, of the absolute path of the marked file outside it: a target that is that absolute path with one
+        # more slash in front must get the inside copy (base + path), never the outside file (a join that lets an absolute path replace the base)
+        t.ents.append(("F", "outer/root" + BASE + "/outer/secret5.txt", b"inside-copy-at-the-mirrored-path"))
     if rnd.random() < 0.1 and not t.has("outer/root/rel") and not t.has("outer/root/latest") and not t.has("outer/notes.txt"):
         # a link to a link: the second one lives in a sub-directory and climbs one level, staying inside the root; resolved from the first
         # link's directory it would name the marked file of the same name one level above the root
@@ -94,6 +98,8 @@ def gen_target(rnd, t):
     r = rnd.random()
     if t.has("outer/root/sub/up.txt") and rnd.random() < 0.5:
         return "/sub/up.txt"
+    if t.has("outer/root" + BASE + "/outer/secret5.txt") and rnd.random() < 0.6:
+        return rnd.choice(["/" + BASE + "/outer/secret5.txt", BASE + "/outer/secret5.txt", "//" + BASE + "/outer/secret5.txt", "/." + BASE + "/outer/secret5.txt"])
     if t.has("outer/root/latest") and rnd.random() < 0.5:
         return rnd.choice(["/latest", "/latest", "/rel/current", "/latest?x=1"])
     dotted = [x for x in inroot if ".." in x]
